@@ -387,17 +387,25 @@ func (c *Ctx) evalCall(x *ECall) CVal {
 	case "allocated":
 		v := c.evalInt(x.Args[0])
 		return CVal{T: tAnd(Term{app("<=", "0", v.S), sBool}, Term{app("<", v.S, c.st.alloc.S), sBool})}
-	case "sent", "lastSent": // ghost log of a channel: number of values sent / the last value sent
+	case "sent", "lastSent", "sentAt": // ghost log of a channel: number of values sent / the last value sent / the k-th value sent
 		cv := c.eval(x.Args[0])
 		ct, ok := cv.GT.Underlying().(*types.Chan)
 		if !ok {
 			cfail("%s: not a channel", x.Fn)
 		}
 		nName, lName, lSort := chanGhost(e, ct.Elem())
+		n := tSelect(c.st.heapGet(e, nName, arrSort(sInt)), cv.T)
 		if x.Fn == "sent" {
-			return CVal{T: tSelect(c.st.heapGet(e, nName, arrSort(sInt)), cv.T)}
+			return CVal{T: n}
 		}
-		return CVal{T: tSelect(c.st.heapGet(e, lName, arrSort(lSort)), cv.T), GT: ct.Elem()}
+		log := tSelect(c.st.heapGet(e, lName, arrSort(lSort)), cv.T)
+		if x.Fn == "sentAt" {
+			if len(x.Args) != 2 {
+				cfail("sentAt(ch, k)")
+			}
+			return CVal{T: tSelect(log, c.evalInt(x.Args[1])), GT: ct.Elem()}
+		}
+		return CVal{T: tSelect(log, Term{app("-", n.S, "1"), sInt}), GT: ct.Elem()}
 	case "has": // has(m, k): key k is present in map m
 		mv := c.eval(x.Args[0])
 		mt, ok := mv.GT.Underlying().(*types.Map)
@@ -499,6 +507,12 @@ func (c *Ctx) evalCall(x *ECall) CVal {
 func (e *Enc) goConst(name string) (CVal, bool) {
 	for _, pkg := range e.p.typePkgs {
 		obj := pkg.Scope().Lookup(name)
+		if fo, ok := obj.(*types.Func); ok {
+			// a package function used as a value
+			if fn := e.p.prog.FuncValue(fo); fn != nil {
+				return CVal{T: e.funcValue(fn), GT: fo.Type()}, true
+			}
+		}
 		if cn, ok := obj.(*types.Const); ok {
 			switch cn.Val().Kind() {
 			case constant.Int:
